@@ -38,6 +38,34 @@ def parser_molecule(species, prefix="x"):
     return mol
 
 
+def replay_cutoff(species):
+    def rp(model):
+        """real Parser.forward at the model's coordinates and cutoff: listed pairs against {distance < cutoff}."""
+        import torch
+        import seqm.basics as B
+        from seqm.seqm_functions.constants import Constants
+
+        torch.set_default_dtype(torch.float64)
+        nmol, molsize = len(species), len(species[0])
+        x = torch.tensor([[[model_float(model, "x_%d_%d_%d" % (m, i, c), 0.0) for c in range(3)] for i in range(molsize)] for m in range(nmol)])
+        cutoff = model_float(model, "cutoff", 1.0)
+        ps = B.Parser({"elements": [0, 1, 8], "pair_outer_cutoff": cutoff})
+        mol = Obj(species=torch.tensor(species), coordinates=x, const=Constants(), tot_charge=torch.zeros(nmol, dtype=torch.int64), mult=torch.ones(nmol, dtype=torch.int64))
+        out = ps(mol, "AM1")
+        idxi, idxj = [int(v) for v in out[13]], [int(v) for v in out[14]]
+        flat = [(m, i) for m in range(nmol) for i in range(molsize) if species[m][i] > 0]
+        listed = set(zip(idxi, idxj))
+        wrong = []
+        for a in range(len(flat)):
+            for b in range(len(flat)):
+                if flat[a][0] == flat[b][0] and flat[a][1] < flat[b][1]:
+                    d = float((x[flat[a][0], flat[a][1]] - x[flat[b][0], flat[b][1]]).norm())
+                    if ((a, b) in listed) != (d < cutoff):
+                        wrong.append({"pair": [a, b], "distance": d, "listed": (a, b) in listed})
+        return {"reproduced": bool(wrong), "cutoff": cutoff, "coordinates": x.tolist(), "pairs_disagreeing_with_distance<cutoff": wrong}
+    return rp
+
+
 def check_parser_paths(ctx, ex, species, cutoff, tag):
     """Per path: the listed pairs are exactly {same molecule, both real, i<j, |ri-rj|^2 < cutoff^2}; index maps decode correctly."""
     nmol, molsize = len(species), len(species[0])
@@ -58,9 +86,9 @@ def check_parser_paths(ctx, ex, species, cutoff, tag):
             d2 = sum((x.a[m, j, c] - x.a[m, i, c]) ** 2 for c in range(3))
             inside = d2 < S(cutoff) * S(cutoff)
             if (a, b) in listed:
-                ctx.prove("%s@p%d.pair(%d,%d)-listed=>inside-cutoff" % (tag, p.path_id, a, b), inside, pc=p.pc)
+                ctx.prove("%s@p%d.pair(%d,%d)-listed=>inside-cutoff" % (tag, p.path_id, a, b), inside, pc=p.pc, replay=replay_cutoff(species), classify=lambda m_, r: "pair-list-vs-cutoff")
             else:
-                ctx.prove("%s@p%d.pair(%d,%d)-dropped=>beyond-cutoff" % (tag, p.path_id, a, b), ~inside, pc=p.pc)
+                ctx.prove("%s@p%d.pair(%d,%d)-dropped=>beyond-cutoff" % (tag, p.path_id, a, b), ~inside, pc=p.pc, replay=replay_cutoff(species), classify=lambda m_, r: "pair-list-vs-cutoff")
         extra = [pr for pr in listed if pr not in cand]
         ctx.prove("%s@p%d.no-cross-molecule/padding/duplicate-pairs" % (tag, p.path_id), E.const(not extra and len(set(listed)) == len(listed)))
         lcf = real("lcf")
